@@ -22,12 +22,13 @@ MAXLAT = 25
 
 EXCS = ("SerialException", "PortNotOpenError", "SerialTimeoutException", "OSError")
 PRIM_PROFILE = Profile(write_exc=EXCS, read_exc=EXCS, latency=(0, 1, 24, 25, 26),
-                       content=("bare", "nocomma", "wrong", "err", "nameerr"), silent=True,
+                       content=("bare", "nocomma", "echo", "commapay", "wrong", "shifted", "err",
+                                "nameerr"), silent=True,
                        read_window=4, late={25, 26})
 METH_PROFILE = Profile(write_exc=("SerialException", "OSError"),
                        read_exc=("SerialException", "PortNotOpenError", "OSError"),
-                       latency=(0, 1, 25, 26), content=("wrong", "err", "nameerr"), silent=True,
-                       read_window=2)
+                       latency=(0, 1, 25, 26), content=("wrong", "shifted", "err", "nameerr"),
+                       silent=True, read_window=2)
 # reboot()/bootload() write to the port themselves and contain the pyserial exception family
 # only; pyserial wraps OS-level failures of write() into SerialException, so a bare OSError is
 # not among the faults a serial port can produce there (see DESIGN.md C05 (ii)).
@@ -39,7 +40,7 @@ ALIGN_PROFILE = Profile(latency=(0, 1, 25))
 REQUESTS = ["V", "v", "R", "QG", "QM", "S2,0,4", "C,1,2", "SM,10,1,1", "  SM,10,1,1  ",
             "QL,3\r", "\tEM,1,1", "QT", "RB", "BL"]
 EXEMPT = ("rb", "r", "bl")              # I/O exceptions deliberately ignored (board leaves the bus)
-FAILING_CONTENT = ("wrong", "err", "nameerr")
+FAILING_CONTENT = ("wrong", "shifted", "err", "nameerr")
 
 
 def ref_name(request):
